@@ -27,21 +27,31 @@ JudgeObs03(obs, trees, sent, k) ==
        ELSE IF o.out = 1 /\ sent /\ o.must THEN o.cfg \o ":rejected-sentence"
        ELSE JudgeObs03(obs, trees, sent, k + 1)
 
-RECURSIVE JudgeObs04(_, _, _, _)
-JudgeObs04(exp, trees, cyclic, k) ==
+\* Token leaves carry positions (the codes); lark's own equality of tokens and trees looks at type and text only, and
+\* the forest merges token nodes by that equality.  So "none missing" is compared on trees with the position replaced
+\* by the matched text (vm: sequence of <<code, id of the text>>, given for the overlapping-terminal families; where
+\* it is empty positions stay) - "none that is not a derivation" and the derivation count stay position-exact.
+Vid(vm, code) == LET h == {q \in DOMAIN vm : vm[q][1] = code} IN IF h = {} THEN 100000 + code ELSE vm[CHOOSE q \in h : TRUE][2]
+RECURSIVE StripPos(_, _)
+StripPos(t, vm) == IF t[1] = "T" THEN <<"T", t[2], Vid(vm, t[3]), <<>>>>
+                   ELSE IF t[1] # "R" THEN t
+                   ELSE <<"R", t[2], 0, [q \in DOMAIN t[4] |-> StripPos(t[4][q], vm)]>>
+
+RECURSIVE JudgeObs04(_, _, _, _, _)
+JudgeObs04(exp, trees, cyclic, vm, k) ==
   IF k > Len(exp) THEN "ok"
   ELSE LET o == exp[k] IN
        IF o.out # 0 THEN (IF o.out = 2 THEN o.cfg \o ":unexpected-exception"
-                          ELSE IF trees # {} /\ ~cyclic THEN o.cfg \o ":rejected-sentence" ELSE JudgeObs04(exp, trees, cyclic, k + 1))
+                          ELSE IF trees # {} /\ ~cyclic THEN o.cfg \o ":rejected-sentence" ELSE JudgeObs04(exp, trees, cyclic, vm, k + 1))
        ELSE LET got == Expand(o.tree) IN
             IF ~(got \subseteq trees) THEN o.cfg \o ":tree-that-is-not-a-derivation"
             \* completeness up to the spelling of an unmatched optional: alternatives of a rule that expand to the
             \* same (empty) symbol sequence are one production, kept in its first spelling (DESIGN 6/C03 (a))
-            ELSE IF ~cyclic /\ {Canon(t) : t \in got} # {Canon(t) : t \in trees} THEN o.cfg \o ":derivation-missing"
+            ELSE IF ~cyclic /\ {StripPos(Canon(t), vm) : t \in got} # {StripPos(Canon(t), vm) : t \in trees} THEN o.cfg \o ":derivation-missing"
             \* lark's own expansion utility must agree with the expansion wherever it is run
             ELSE IF o.collrun /\ ~o.collok THEN o.cfg \o ":CollapseAmbiguities-raises"
             ELSE IF o.collrun /\ {o.coll[q] : q \in DOMAIN o.coll} # got THEN o.cfg \o ":CollapseAmbiguities-differs-from-expansion"
-            ELSE JudgeObs04(exp, trees, cyclic, k + 1)
+            ELSE JudgeObs04(exp, trees, cyclic, vm, k + 1)
 
 \* ---- plain BNF grammars, cyclic ones included: every tree of the expansion is a derivation tree of the input ----
 RECURSIVE LeavesOf(_), ValidNode(_, _, _)
@@ -76,18 +86,18 @@ JudgeBnf(G, exp, w, k) ==
 
 \* ---- C20: TreeForestTransformer on the forest of ambiguity='forest' ----
 \* o.tree: resolve_ambiguity=False result, o.one: resolve_ambiguity=True result, o.isamb: root.is_ambiguous
-RECURSIVE JudgeObs20(_, _, _, _)
-JudgeObs20(exp, trees, cyclic, k) ==
+RECURSIVE JudgeObs20(_, _, _, _, _)
+JudgeObs20(exp, trees, cyclic, vm, k) ==
   IF k > Len(exp) THEN "ok"
   ELSE LET o == exp[k] IN
        IF o.out = 2 THEN o.cfg \o ":hang-or-unexpected-exception"
-       ELSE IF o.out = 1 THEN (IF trees # {} THEN o.cfg \o ":rejected-sentence" ELSE JudgeObs20(exp, trees, cyclic, k + 1))
+       ELSE IF o.out = 1 THEN (IF trees # {} THEN o.cfg \o ":rejected-sentence" ELSE JudgeObs20(exp, trees, cyclic, vm, k + 1))
        ELSE LET got == Expand(o.tree) IN
             IF ~(got \subseteq trees) THEN o.cfg \o ":forest-tree-that-is-not-a-derivation"
-            ELSE IF got # trees THEN o.cfg \o ":derivation-missing-from-forest"
+            ELSE IF {StripPos(t, vm) : t \in got} # {StripPos(t, vm) : t \in trees} THEN o.cfg \o ":derivation-missing-from-forest"
             ELSE IF o.one \notin trees THEN o.cfg \o ":resolved-tree-is-not-a-derivation"
             ELSE IF Cardinality(trees) = 1 /\ o.isamb THEN o.cfg \o ":is_ambiguous-on-single-derivation"
-            ELSE JudgeObs20(exp, trees, cyclic, k + 1)
+            ELSE JudgeObs20(exp, trees, cyclic, vm, k + 1)
 
 RECURSIVE JudgeBnf20(_, _, _, _)
 JudgeBnf20(G, exp, w, k) ==
@@ -117,7 +127,8 @@ UsesEmptyWrongly(G, w, t) ==
   ELSE \E q \in DOMAIN t[4] : UsesEmptyWrongly(G, w, t[4][q])
 
 \* overlapping terminals (dynamic lexers): the input is a text, inp.toks lists its tokenisations, each a sequence of
-\* <<terminal, offset>>; the derivations of the text are those of all tokenisations, token leaves carrying offsets
+\* <<terminal, code>> (code: the offset, or offset * 64 + length where one terminal matches several lengths); the
+\* derivations of the text are those of all tokenisations, token leaves carrying the codes
 RECURSIVE Reoffset(_, _)
 Reoffset(t, tk) ==
   IF t[1] = "T" THEN <<"T", t[2], tk[t[3] + 1][2], <<>>>>
@@ -149,12 +160,12 @@ Next ==
   /\ ii' = ii + 1
   /\ LET c == Cases[tid]
          inp == c.inputs[ii + 1]
-         trees == TreesOfInput(c.G, inp.w)
-         v == IF Which = "C05" THEN JudgeObs05(c, inp.obs, IF c.multitok THEN TreesOfText(c.G, inp.toks) ELSE trees, 1)
+         trees == IF c.multitok THEN TreesOfText(c.G, inp.toks) ELSE TreesOfInput(c.G, inp.w)
+         v == IF Which = "C05" THEN JudgeObs05(c, inp.obs, trees, 1)
               ELSE IF Which = "C20" /\ c.cyclic THEN JudgeBnf20(c.G, inp.exp, inp.w, 1)
-              ELSE IF Which = "C20" THEN JudgeObs20(inp.exp, trees, c.cyclic, 1)
+              ELSE IF Which = "C20" THEN JudgeObs20(inp.exp, trees, c.cyclic, inp.vmap, 1)
               ELSE IF Which = "C04" /\ c.cyclic THEN JudgeBnf(c.G, inp.exp, inp.w, 1)
-              ELSE IF Which = "C04" THEN JudgeObs04(inp.exp, trees, c.cyclic, 1)
+              ELSE IF Which = "C04" THEN JudgeObs04(inp.exp, trees, c.cyclic, inp.vmap, 1)
               ELSE JudgeObs03(inp.obs, trees, trees # {}, 1)
      IN verdict' = Verdict(tid, ii + 1, v = "ok", v, IF c.cyclic THEN -1 ELSE Cardinality(trees))
   /\ UNCHANGED tid
